@@ -47,6 +47,27 @@ class FakeOS:
 
     replace = rename
 
+    def open(self, path, flags, mode=0o777, **k):
+        """low-level open: recorded as the builtin open(path, 'w') it is equivalent to when it creates, truncates and writes;
+        any other flag combination is recorded with its flags (and then does not satisfy "opened for writing, truncating")"""
+        import os
+        need = os.O_WRONLY | os.O_CREAT | os.O_TRUNC
+        if flags & need == need and not flags & os.O_APPEND:
+            self._pending = ('open', path, 'w')
+        else:
+            self._pending = ('open', path, f'os.open flags={flags:#o}')
+        return ('fake-fd', path)
+
+    def fdopen(self, fd, mode='r', *a, **k):
+        ev = self._pending
+        f = FakeFile.__new__(FakeFile)
+        f._events = self._events
+        self._events.append(ev if mode.startswith('w') else ('open', fd[1], mode))
+        return f
+
+    def close(self, fd):
+        pass
+
     def __getattr__(self, n):
         import os
         return getattr(os, n)
@@ -141,9 +162,9 @@ def h_write(fmt, fail_kind, n, pos, api, bad_option, m):
     dangling = m.boolean('dangling')
     overwrite = m.boolean('overwrite')
     regs = _pool(fail_kind, n, pos)
-    kw = {}
+    kw = {'crtf': {'coordsys': 'image', 'radunit': 'pix'}}.get(fmt, {})      # pixel regions are only expressible in CRTF image coordinates
     if bad_option:
-        kw = {'ds9': {'precision': 'many'}, 'crtf': {'fmt': 'zz'}, 'fits': {'header': 5}}[fmt]
+        kw = {**kw, **{'ds9': {'precision': 'many'}, 'crtf': {'fmt': 'zz'}, 'fits': {'header': 5}}[fmt]}
     will_fail, expected_text = _expect(fmt, regs, kw, api)
     if will_fail is None:
         return
@@ -166,7 +187,7 @@ def h_write(fmt, fail_kind, n, pos, api, bad_option, m):
         d = tempfile.mkdtemp(prefix='vf-c14-')
         try:
             target = os.path.join(d, 'dest.' + ext)
-            sentinel = b'PRECIOUS USER DATA\n'
+            sentinel = b'PRECIOUS USER DATA\n' * 300          # longer than any output: a write that does not truncate shows
             is_dangling = bool(exists and dangling) and fmt != 'fits'
             if is_dangling:
                 os.symlink(os.path.join(d, 'missing-target'), target)
@@ -298,10 +319,48 @@ def h_identify(methodname, m):
                       Iff(got == fmt, ids[fmt]) if got != 'oserror' else True)
 
 
+def h_content_history(m):
+    """EXECUTED on a real temporary directory (no symbolic input; supplementary to the solver-decided cases): a successful write
+    followed by a read with the format inferred from the content signature of a renamed / gzip-compressed copy returns the regions
+    of the serialised text -- also when the same path later holds a file of another format"""
+    import gzip
+    import os
+    import shutil
+    import tempfile
+    from regions import Regions, CirclePixelRegion, EllipsePixelRegion, PixCoord
+    regs = {'ds9': Regions([CirclePixelRegion(PixCoord(1.0, 2.0), 3.0)]),
+            'crtf': Regions([CirclePixelRegion(PixCoord(4.0, 5.0), 6.0), CirclePixelRegion(PixCoord(7.0, 8.0), 9.0)]),
+            'fits': Regions([EllipsePixelRegion(PixCoord(1.5, 2.5), 4.0, 2.0, angle=30 * u.deg), CirclePixelRegion(PixCoord(1.0, 1.0), 2.0),
+                             CirclePixelRegion(PixCoord(2.0, 2.0), 2.0)])}
+    kws = {'ds9': {}, 'crtf': {'coordsys': 'image', 'radunit': 'pix'}, 'fits': {}}
+    exts = {'ds9': 'reg', 'crtf': 'crtf', 'fits': 'fits'}
+    d = tempfile.mkdtemp(prefix='vf-c14h-')
+    try:
+        with warnings.catch_warnings():
+            warnings.simplefilter('ignore')
+            plain, gz = os.path.join(d, 'copy.dat'), os.path.join(d, 'packed.dat.gz')
+            for fmt in ('ds9', 'crtf', 'fits', 'ds9'):          # the same two paths are reused for every format in turn
+                src = os.path.join(d, 'a.' + exts[fmt])
+                regs[fmt].write(src, format=fmt, overwrite=True, **kws[fmt])
+                want = Regions.read(src, format=fmt)
+                shutil.copy(src, plain)
+                with open(src, 'rb') as f, gzip.open(gz, 'wb') as g:
+                    g.write(f.read())
+                for path, what in ((src, 'extension'), (plain, 'content of a renamed copy'), (gz, 'content of a gzip-compressed copy')):
+                    try:
+                        got = Regions.read(path)
+                        ok = len(got) == len(want) and all(a == b for a, b in zip(got, want))
+                    except Exception:  # noqa
+                        ok = False
+                    m.require(f'{fmt}: reading with the format inferred from the {what} returns the written regions', ok)
+    finally:
+        shutil.rmtree(d, ignore_errors=True)
+
+
 def harnesses(tier):
     P = functools.partial
     q = tier == 'quick'
-    hs = []
+    hs = [('read-back/content-signature-history (executed)', h_content_history)]
     for fmt in ('ds9', 'crtf', 'fits'):
         fails = [None, 'compound', 'not-a-region'] + (['unsupported-frame'] if fmt == 'ds9' else [])
         for fk in fails:
@@ -326,9 +385,10 @@ META = {
     'bounds': {'quick': {'fault schedule': 'destination-exists bit and overwrite flag symbolic (Booleans); failing member in {compound, non-region, '
                                           'unsupported frame} at the first / last position of a 3-list or alone; bad option per format',
                          'path strings': 'symbolic, length <= 12, 8-bit characters, any case'}},
-    'outside_claim': ['real filesystem semantics beyond the occupied/dangling bits (partial writes, gzip content sniffing, get_readable_fileobj, '
-                      'astropy BinTableHDU.writeto internals): the filesystem is an event-recording stub; content-signature identification '
-                      'is stubbed as "no such file"',
+    'outside_claim': ['real filesystem semantics beyond the occupied/dangling bits (partial writes, astropy BinTableHDU.writeto internals): in the '
+                      'solver-decided cases the filesystem is an event-recording stub and content-signature identification is stubbed as "no such file"; '
+                      'reading back through the content signature of renamed / gzip-compressed copies is covered only by ONE EXECUTED history on a real '
+                      'temporary directory (read-back/content-signature-history), which is an execution of the real library, not a solver verdict',
                       'sky regions in FITS lists and unsupported shapes are skipped with a warning (not a failure): covered in C12'],
     'stubs': ['os / open in the namespace of io/ds9/write and io/crtf/write: lexists returns a symbolic Bool, open records an event',
               'fits.BinTableHDU in io/fits/write: records writeto(filename, overwrite); raises OSError iff exists and not overwrite',
